@@ -848,3 +848,121 @@ Proof.
   exists ex_env, [97], [(s_identityfile, VList [[47;37;104]]); (s_hostname, VStr [37;104;46;120])].
   split; [reflexivity|]. split; vm_compute; reflexivity.
 Qed.
+
+(* ---- closed forms over the config alone ----------------------------------------------------------- *)
+Lemma dm_from_optfree cs : forall m e t canonical final opts opts',
+  forallb optfree_crit cs = true ->
+  dm_from m cs e t canonical final opts = dm_from m cs e t canonical final opts'.
+Proof.
+  induction cs as [|c cs IH]; intros m e t canonical final opts opts' H; [reflexivity|].
+  cbn in H. apply andb_true_iff in H as [Hc Hs]. cbn [dm_from].
+  rewrite (IH true e t canonical final opts opts' Hs).
+  unfold optfree_crit in Hc. destruct (c_type c); try discriminate; reflexivity.
+Qed.
+
+Lemma applies_optfree e t f opts b :
+  optfree_block b = true -> applies e t false f opts b = applies e t false f [] b.
+Proof.
+  unfold applies, optfree_block. destruct (b_hdr b) as [ps|cs]; [reflexivity|].
+  intros H. unfold does_match. apply dm_from_optfree, H.
+Qed.
+
+Lemma first_from_optfree e t f cfg : forall opts k,
+  forallb optfree_block cfg = true ->
+  first_from e t false f cfg opts k = first_obtained_in e t f cfg k.
+Proof.
+  unfold first_obtained_in. induction cfg as [|b cfg IH]; intros opts k H; cbn [first_from find]; [reflexivity|].
+  cbn in H. apply andb_true_iff in H as [Hb Hs].
+  rewrite applies_optfree by assumption.
+  destruct (applies e t false f [] b); cbn [andb].
+  - unfold dmem. destruct (dget (block_config (b_body b)) k) eqn:E; [symmetry; exact E|apply IH, Hs].
+  - apply IH, Hs.
+Qed.
+
+Lemma lookup_raw_first_obtained_passes e cfg host raw k :
+  forallb optfree_block cfg = true ->
+  lookup_raw e cfg host = Some raw ->
+  k <> s_identityfile ->
+  dget raw k =
+  keep (first_obtained_in e host false cfg k)
+       (if zlist_eqb k s_hostname then Some (VStr host) else first_obtained_in e host true cfg k).
+Proof.
+  intros Hs H Hk. rewrite (lookup_raw_two_pass e cfg host raw k H Hk).
+  rewrite !first_from_optfree by assumption. reflexivity.
+Qed.
+
+Lemma dm_from_hu cs : forall m e t canonical final opts opts',
+  dget opts s_hostname = dget opts' s_hostname ->
+  dget opts s_user = dget opts' s_user ->
+  dm_from m cs e t canonical final opts = dm_from m cs e t canonical final opts'.
+Proof.
+  induction cs as [|c cs IH]; intros m e t canonical final opts opts' Hh Hu; [reflexivity|].
+  cbn [dm_from]. rewrite (IH true e t canonical final opts opts' Hh Hu). rewrite Hh, Hu. reflexivity.
+Qed.
+
+Lemma dget_mini_h oh ou : dget (mini oh ou) s_hostname = oh.
+Proof. destruct oh, ou; reflexivity. Qed.
+Lemma dget_mini_u oh ou : dget (mini oh ou) s_user = ou.
+Proof. destruct oh, ou; reflexivity. Qed.
+
+Lemma applies_hu_eq e t c f opts b :
+  applies e t c f opts b = applies_hu e t c f (dget opts s_hostname) (dget opts s_user) b.
+Proof.
+  unfold applies_hu, applies. destruct (b_hdr b) as [ps|cs]; [reflexivity|].
+  unfold does_match. apply dm_from_hu; [now rewrite dget_mini_h|now rewrite dget_mini_u].
+Qed.
+
+Lemma first_from_sel e t c f cfg : forall opts k,
+  first_from e t c f cfg opts k = sel e t c f cfg (dget opts s_hostname) (dget opts s_user) k.
+Proof.
+  induction cfg as [|b cfg IH]; intros opts k; cbn [first_from sel]; [reflexivity|].
+  rewrite <- applies_hu_eq. destruct (applies e t c f opts b) eqn:Ea; [|apply IH].
+  destruct (dget (block_config (b_body b)) k); [reflexivity|].
+  rewrite IH. rewrite !apply_block_get by discriminate. rewrite Ea. reflexivity.
+Qed.
+
+Lemma collected_coll e t c f cfg : forall opts,
+  collected e t c f cfg opts = coll e t c f cfg (dget opts s_hostname) (dget opts s_user).
+Proof.
+  induction cfg as [|b cfg IH]; intros opts; cbn [collected coll]; [reflexivity|].
+  rewrite <- applies_hu_eq. destruct (applies e t c f opts b) eqn:Ea; [|apply IH].
+  rewrite IH. rewrite !apply_block_get by discriminate. rewrite Ea. reflexivity.
+Qed.
+
+Lemma keep_none o : keep o None = o.
+Proof. destruct o; reflexivity. Qed.
+
+Lemma first_pass_hu e cfg host :
+  dget (first_pass e cfg host) s_hostname =
+    keep (sel e host false false cfg None None s_hostname) (Some (VStr host)) /\
+  dget (first_pass e cfg host) s_user = sel e host false false cfg None None s_user.
+Proof.
+  split.
+  - rewrite first_pass_get by discriminate. rewrite first_from_sel. reflexivity.
+  - rewrite first_pass_get by discriminate. rewrite first_from_sel. cbn [dget].
+    change (zlist_eqb s_user s_hostname) with false. apply keep_none.
+Qed.
+
+Lemma lookup_raw_closed e cfg host raw k :
+  lookup_raw e cfg host = Some raw ->
+  k <> s_identityfile ->
+  let sel1 := sel e host false false cfg None None in
+  dget raw k =
+  keep (sel1 k)
+       (if zlist_eqb k s_hostname then Some (VStr host)
+        else sel e host false true cfg (keep (sel1 s_hostname) (Some (VStr host))) (sel1 s_user) k).
+Proof.
+  intros H Hk sel1. rewrite (lookup_raw_two_pass e cfg host raw k H Hk).
+  rewrite !first_from_sel. destruct (first_pass_hu e cfg host) as [Eh Eu]. rewrite Eh, Eu. reflexivity.
+Qed.
+
+Lemma identityfile_closed e cfg host raw :
+  lookup_raw e cfg host = Some raw ->
+  let sel1 := sel e host false false cfg None None in
+  get_list raw s_identityfile =
+  dedup_extend [] (coll e host false false cfg None None ++
+                   coll e host false true cfg (keep (sel1 s_hostname) (Some (VStr host))) (sel1 s_user)).
+Proof.
+  intros H sel1. rewrite (lookup_raw_idf e cfg host raw H). rewrite !collected_coll.
+  destruct (first_pass_hu e cfg host) as [Eh Eu]. rewrite Eh, Eu. reflexivity.
+Qed.
